@@ -116,9 +116,14 @@ def age_gt(r, acq, tmo):
     return z3.UGT(z3.If(z3.UGE(r, acq), r - acq, U64(0)), tmo)
 
 
+def age_ge(r, acq, tmo):
+    return z3.UGE(z3.If(z3.UGE(r, acq), r - acq, U64(0)), tmo)
+
+
 def expired_at_some(st, acq, tmo):
+    # the instant age == timeout may count either way (the property does not fix the boundary)
     rs = st.env.get('clock_readings', [])
-    return z3.Or([age_gt(r, acq, tmo) for r in rs]) if rs else z3.BoolVal(False)
+    return z3.Or([age_ge(r, acq, tmo) for r in rs]) if rs else z3.BoolVal(False)
 
 
 def live_at_some(st, acq, tmo):
@@ -247,7 +252,7 @@ for (nl, tv) in SHAPES:
                 rs = f.env.get('clock_readings', [])
                 # an answer about a present entry needs a clock reading: without one "unexpired" cannot have been established
                 live = z3.And(pr, z3.Or([z3.Not(age_gt(x, aq, to)) for x in rs]) if rs else z3.BoolVal(False))
-                dead = z3.Or(z3.Not(pr), z3.Or([age_gt(x, aq, to) for x in rs]) if rs else z3.BoolVal(False))
+                dead = z3.Or(z3.Not(pr), z3.Or([age_ge(x, aq, to) for x in rs]) if rs else z3.BoolVal(False))
                 if call == 'is_locked':
                     concl = z3.And(z3.Implies(r.retval, live), z3.Implies(z3.Not(r.retval), dead))
                 else:
